@@ -410,79 +410,65 @@ class FillRequest(object):
         or, otherwise, the output of *el.request* is stored in a buffer,
         until it is requested.
         """
-        if self._n_count and not self._n_count % self.bufsize:
+        # _n_count is the number of values of the current block
+        # that were filled into the element
+        if self._n_count == self.bufsize:
+            # the element holds a complete block not yet requested
             if self._buffer_input:
                 self._buffer_in.append(value)
                 return
             else:
                 # add output to the output buffer
-                self._buffer_out.extend(self.request())
-                # don't reset because need to know that fill was called
-                # self._n_count = 0
+                self._buffer_out.extend(self._request_block())
 
         self._el_fill(value)
         self._n_count += 1
+
+    def _request_block(self):
+        # results for the complete block that was filled into the element
+        results = list(self._el_request())
+        if self._reset:
+            self._el_reset()
+        self._n_count = 0
+        return results
 
     def request(self):
         """Yield results (if they are available) and possibly reset.
 
         If input or output buffers were filled, all their contents
         are processed and yielded.
+        Values of an incomplete block remain in the element
+        until the block is filled.
+        If *yield_on_remainder* is set, the results for an incomplete
+        block are yielded as well (and the block continues).
         """
+        if not self._buffer_input:
+            # results of the blocks that were completed during fill
+            buffer_out = self._buffer_out
+            self._buffer_out = []
+            for val in buffer_out:
+                yield val
+
         # yield what was filled into the element
-        if self._n_count >= self.bufsize:
+        if self._n_count == self.bufsize:
+            for val in self._request_block():
+                yield val
+
+        if self._buffer_input:
+            # Buffer is always filled after the element,
+            # therefore the order is correct.
+            buffer_in = self._buffer_in
+            self._buffer_in = []
+            for value in buffer_in:
+                self._el_fill(value)
+                self._n_count += 1
+                if self._n_count == self.bufsize:
+                    for val in self._request_block():
+                        yield val
+
+        if self._yield_on_remainder and self._n_count:
             for val in self._el_request():
                 yield val
-            if self._reset:
-                self._el_reset()
-            # it is important that request is not called
-            # when not enough values were filled after last request
-            self._n_count = self._n_count % self.bufsize
-
-        # process buffers.
-        # Buffers are always filled after the element,
-        # therefore the order is correct.
-        if not self._buffer_input:
-            # all results are in _buffer_out
-            for val in self._buffer_out:
-                yield val
-            if self._yield_on_remainder:
-                for val in self._el_request():
-                    yield val
-            # reset was already called when filling _buffer_out
-            return
-        else:
-            # fill the buffer from _buffer_in and yield
-            nfills = 0
-            bufsize = self.bufsize
-            buffer_in = self._buffer_in
-            while True:
-                if nfills == bufsize:
-                    for val in self._el_request():
-                        yield val
-                    if self._reset:
-                        self._el_reset()
-                    nfills = 0
-                    del buffer_in[:bufsize]
-                    # should be slower, because a slice below
-                    # copies elements
-                    ## self._buffer_in = self._buffer_in[bufsize:]
-                    continue
-
-                # fill the element with values from buffer
-                try:
-                    val = buffer_in[nfills]
-                except IndexError:
-                    if self._yield_on_remainder:
-                        for val in self._el_request():
-                            yield val
-                    break
-                else:
-                    self._el_fill(val)
-                    nfills += 1
-
-        if self._reset:
-            self._el_reset()
 
     def reset(self):
         """Reset *el* (ignoring the initialization setting)."""
